@@ -278,7 +278,7 @@ PROPS = {
     'C02': _kan_props(['KVerif.Props.C02', 'KVerif.Props.C02frag', 'KVerif.Props.C02full'],
         'hand-written capacity-edge shapes (11-14 held layers, 18 stacked one-shot layers, repeat re-entering its container, 11 concurrent tap-holds + queue flood, every valid key code once) plus random whole-grammar configurations (incl. custom actions) driven by histories that are not physically consistent (repeated presses, stray releases, repeat and tap events, unmapped codes, floods of 70-200 events); non-trivial = output changed at least twice; oracle: every configuration the real parser accepts must satisfy CfgWF (evaluated by the driver on the serialised parse result) and must be processed without panic/abort/hang',
         None, _crash_or_ok),
-    'C01': _kan_props(['KVerif.Props.C01', 'KVerif.Props.C01q2'],
+    'C01': _kan_props(['KVerif.Props.C01', 'KVerif.Props.C01q2', 'KVerif.Props.C01union'],
         'non-latching whole-grammar configurations (layers, tap-hold variants, tap-dance, one-shot variants, chords v1, macros, fork/switch, multi, release-key/layer, unmod, mouse wheel/move, virtual keys operated by tap/release only, hold-for-duration, on-idle) and balanced histories - every pressed key is released, incl. bursts of 40-120 events overflowing the 32-slot queue - followed by 3000 quiet ticks; plus 20 keys pressed at once with 12-key multis (> 64 states), tap-holds (> 8), one-shot layers (> 16), macros (> 4) and tap-dances; non-trivial = output changed at least twice; oracle on the real trace: nothing down at the OS at the end, nothing emitted during the last 500 ms, kanata reports idle',
         'C01o'),
     'C07': _kan_props(['KVerif.Props.C07', 'KVerif.Props.C07reach', 'KVerif.Props.C07src', 'KVerif.Props.C07reach2', 'KVerif.Props.C07bisim'],
